@@ -42,7 +42,7 @@ for p in props:
 
 manifest = {
     "version": 1,
-    "setup_cmd": "/venv/bin/python -m compileall -q sim checks selftest tools && ./check --help >/dev/null",
+    "setup_cmd": "/venv/bin/python -m compileall -q sim checks selftest tools && ./check --help >/dev/null && selftest/kernel_conformance.py 300",
     "hooks": {
         "guard": "ROPT_VERIF",
         "enable": "no hooks in /repo: all seams are public plug-in points, caller-supplied callables, or library functions "
